@@ -49,7 +49,7 @@ def std_logpdf(f, z, df=None):
     if f == "Normal":
         return -0.5 * z * z - 0.5 * LOG2PI
     if f == "Gumbel":
-        return -(z + math.exp(-z))
+        return -(z + math.exp(-z)) if z > -700 else -math.inf          # the density underflows: exp(-z) exceeds the float range
     if f == "Cauchy":
         return -math.log(math.pi) - math.log1p(z * z)
     if f == "Laplace":
@@ -121,6 +121,10 @@ def check_case(rep, c):
     if c["expect"] == "edge":
         return          # the value on the edge of the support is a convention; only NaN is ruled out
     ref = textbook(f, ps, x)
+    if ref == -math.inf:       # inside the support, but the density underflows in float64
+        if not lp < -1e300:
+            rep.violation({**key, "what": "value"}, f"{desc}.log_prob({x}) = {lp}; the textbook log-density underflows to -inf there", {"case": c})
+        return
     if not abs(lp - ref) <= 1e-10 * (1 + abs(ref)):
         rep.violation({**key, "what": "value"}, f"{desc}.log_prob({x}) = {lp}; the textbook log-density summed over coordinates is {ref}", {"case": c})
 
@@ -195,6 +199,40 @@ def accessors_and_more(rep: Report, rng: random.Random):
                           f"VmapMixture of {fam}: {lp} with weights w, {lp2} with 37.5 w")
         if lp != lp:
             rep.violation({"family": "VmapMixture", "what": "NaN"}, "VmapMixture log_prob is NaN")
+
+
+def mixture_draws_are_joint(rep: Report, rng: random.Random):
+    """A necessary condition of 'samples follow the density' that needs no statistics: with components 1e3 standard
+    deviations apart, every coordinate of a draw lies next to the SAME component (a draw that mixes coordinates of
+    different components has density ~ exp(-5e5) under the mixture), and each component is drawn about as often as its
+    weight says (bounds 8 standard deviations wide: a false alarm has probability < 1e-14)."""
+    from flowjax import distributions as ds
+    for i, (dim, kcomp) in enumerate([(3, 2), (2, 3), (4, 2)]):
+        rs = np.random.default_rng(rng.randrange(2**31))
+        centres = np.arange(kcomp)[:, None] * 1000.0 + rs.normal(size=(kcomp, dim))
+        w = rs.uniform(0.5, 2.0, size=kcomp)
+        comp = eqx.filter_vmap(ds.Normal)(jnp.asarray(centres), jnp.ones((kcomp, dim)))
+        mix = ds.VmapMixture(comp, jnp.asarray(w))
+        n = 400
+        rep.count(1, ("mixture-joint", dim, kcomp))
+        try:
+            xs = np.asarray(mix.sample(jr.PRNGKey(int(rs.integers(2**31))), (n,)))
+        except Exception as e:  # noqa: BLE001
+            rep.violation({"family": "VmapMixture", "what": "sample raises", "error": type(e).__name__}, f"VmapMixture.sample: {type(e).__name__}: {str(e)[:200]}")
+            continue
+        nearest = np.argmin(np.abs(xs[:, :, None] - centres.T[None, :, :]), axis=2)          # (n, dim): component next to each coordinate
+        dist = np.min(np.abs(xs[:, :, None] - centres.T[None, :, :]), axis=2)
+        mixed = int(np.sum(np.any(nearest != nearest[:, :1], axis=1)))
+        if xs.shape != (n, dim) or mixed or np.any(dist > 12.0):
+            rep.violation({"family": "VmapMixture", "what": "a draw does not come from one component"},
+                          f"VmapMixture of {kcomp} Normal components in {dim} dimensions, centres 1000 apart: {mixed} of {n} draws combine "
+                          f"coordinates of different components (largest distance to the nearest centre {dist.max():.1f})")
+            continue
+        freq = np.bincount(nearest[:, 0], minlength=kcomp) / n
+        p = w / w.sum()
+        if np.any(np.abs(freq - p) > 8 * np.sqrt(p * (1 - p) / n)):
+            rep.violation({"family": "VmapMixture", "what": "component frequencies"},
+                          f"VmapMixture weights {p.tolist()}: components drawn with frequencies {freq.tolist()} in {n} draws")
 
 
 def after_the_parameters_moved(rep: Report, rng: random.Random, thorough: bool):
@@ -302,6 +340,7 @@ def main():
         rep.sample({"kind": "spec->code", "tlc_case": c}, 4)
         check_case(rep, c)
     accessors_and_more(rep, rng)
+    mixture_draws_are_joint(rep, rng)
     after_the_parameters_moved(rep, rng, t == "thorough")
     rejection_loop(rep, rng)
     rep.set("exhaustive", True)
@@ -309,7 +348,9 @@ def main():
                     "term; plus accessors, MultivariateNormal, mixtures; distinct by those keys")
     rep.assume("log, exp, lgamma, log1p are evaluated with math / NumPy in float64 (trusted base); SciPy was used once, at build "
                "time, to validate the textbook formulas in this file")
-    rep.assume("the clause 'samples follow that density' is NOT decided by this check")
+    rep.assume("the clause 'samples follow that density' is NOT decided by this check in general: only structural necessary "
+               "conditions are (a location-scale draw is loc + scale * the standard draw of the same key; a mixture draw lies "
+               "next to a single component and components are drawn with the frequencies of the weights, at 8 sigma)")
     return rep.finish()
 
 
